@@ -321,7 +321,8 @@ namespace cds { namespace gc {
             {
                 bool ret = push( *p );
                 CDS_HPSTAT( --retire_call_count_ );
-                assert( ret );
+                // false is legal for the very last cell: every retired pointer is still guarded, scan() then extends the array
+                assert( ret || ( current_block_ == list_tail_ && current_cell_ == current_block_->last()));
                 return ret;
             }
 
